@@ -234,7 +234,8 @@ def gen_cmd(rng, prof, depth=0, path="p", used_env=None, inherited=None):
         if sh is None and lo is None:
             continue
         a["short"], a["long"] = sh, (lo.encode() if lo else None)
-        if lo and chance(rng, prof.aliases):
+        # a long ALIAS needs no long name: `.short('o').alias("output")` makes `--output` a key of the argument
+        if (lo or chance(rng, 0.3)) and chance(rng, prof.aliases):
             al = fresh_long()
             if al:
                 a["aliases"] = [(al.encode(), chance(rng, 0.5))]
